@@ -192,7 +192,7 @@ func init() {
 			{"alloc-scans-all", "the relationship id allocator's scanning loop has no early exit", ruleAllocScansAll},
 			{"rel-serialise-all", "every relationship of the in-memory list (the newest header/footer relationship included) is written to the relationship part on save", ruleRelSerialiseAll},
 			{"sectpr-singleton", "header/footer calls find the one section-properties element wherever it is (full search before a new one is appended)", ruleSectPrSingleton},
-			{"fresh-dep/relid", "header/footer relationship ids are computed from the ids already in the list, with one allocation scheme for all relationships of that list (a private counter next to list-scanning allocators falls behind)", filtered(ruleFreshRelID, ":header#", ":footer#", "relid-scheme:")},
+			{"fresh-dep/relid", "header/footer relationship ids are computed from the ids already in the list, with one allocation scheme for all relationships of that list (a private counter next to list-scanning allocators falls behind)", ruleFreshRelID},
 		},
 		Assumptions: commonAssumptions,
 	}
